@@ -118,10 +118,13 @@ def generate(run_seed, tier):
         if r.random() < 0.3:
             shared.append(dict(kind="gen"))
     else:
-        shared.append(dict(kind="key", d=libx.key_scalar(r, mc.n),
-                           unscaled=r.random() < 0.6,
-                           z=r.randrange(2, mc.p),
-                           hash=r.choice(["sha1", "sha256", "synth8"])))
+        # one key, sometimes two (they share the curve's generator and its
+        # lazily built table), sometimes a bare point next to them
+        for _ in range(r.choice([1, 1, 2])):
+            shared.append(dict(kind="key", d=libx.key_scalar(r, mc.n),
+                               unscaled=r.random() < 0.6,
+                               z=r.randrange(2, mc.p),
+                               hash=r.choice(["sha1", "sha256", "synth8"])))
     nthreads = r.choice([2, 2, 2, 3])
     ro = core.rng(run_seed, "ops")
     threads = [_gen_ops(ro, scen, mc, len(shared), ro.choice([1, 1, 2]))
